@@ -86,9 +86,9 @@ def headers_from_dict(d):
         guard = re.sub(r"\W", "_", name).upper()
         pre = ["#ifndef %s" % guard, "#define %s" % guard]
         if language == "c":
-            pre += ["#include <stddef.h>", "#include <stdbool.h>"]
+            pre += ["#include <stddef.h>", "#include <stdbool.h>", "#include <stdint.h>"]
         else:
-            pre += ["#include <cstddef>", "#include <string>", "#include <vector>"]
+            pre += ["#include <cstddef>", "#include <cstdint>", "#include <string>", "#include <vector>"]
         return name, "\n".join(pre + body + ["#endif"]) + "\n"
 
     main = []
